@@ -190,6 +190,12 @@ ASMJIT_FAVOR_SIZE Error FuncArgsContext::init_work_data(const FuncFrame& frame, 
   }
 
   if (sa_out_reg_id != Reg::kIdBad) {
+    // The requested `SARegId` must be an allocable general purpose register, like every destination register of an argument
+    // (never the stack pointer, never a preserved frame pointer).
+    if (ASMJIT_UNLIKELY(sa_out_reg_id >= 32 || !Support::bit_test(gp_regs.arch_regs(), sa_out_reg_id))) {
+      return make_error(Error::kInvalidPhysId);
+    }
+
     // Check if the provided `SARegId` doesn't collide with argument assignments.
     if (ASMJIT_UNLIKELY(Support::bit_test(gp_regs.dst_regs(), sa_out_reg_id))) {
       return make_error(Error::kOverlappedRegs);
